@@ -338,6 +338,9 @@ class MultiThreadRunner(BaseRunner):
 
     def runner_loop_iteration(self) -> None:
         """Execute one iteration of the runner loop."""
+        # Forget workers whose process died so they stop counting as tracked
+        # capacity and can be replaced by the scale-up below
+        self._cleanup_dead_processes()
         self._scale_up_processes()
 
     def _waiting_for_results(
